@@ -100,6 +100,8 @@ var tlTemplates = []string{
 	">  \t" + hA + hA,                           // 80 spaces then a tab inside a container
 	"see <a\n" + hA + "=\"x\">b</a>",             // 81 multi-line inline HTML tag
 	"a\n  " + hA + " b",                         // 82 indented interrupting block
+	"[a]: /x\n[a]: /y\n[" + hA + "]",             // 83 competing definitions followed by a use
+	"[t][f\n" + hA + "]\n\n[f g]: /u",            // 84 full reference whose label spans two lines
 }
 
 // tlQuick lists the templates with at most two holes... (kept for reference);
